@@ -211,10 +211,11 @@ class FatIO(io.RawIOBase):
         self.fs.update_directory_entry(self.dir_entry.get_parent_dir())
         return sz
 
-    def truncate(self, size: Optional[int] = 0) -> int:
+    def truncate(self, size: Optional[int] = None) -> int:
         """Truncate file to given size.
 
-        :param size: `int`: Size to truncate to, defaults to 0.
+        :param size: `int`: Size to truncate to, defaults to the
+                     current position.
         :returns: `int`: Truncated size
         """
         with self._lock:
